@@ -34,12 +34,16 @@ impl ResultsWriter {
     }
 
     pub fn write_header(&mut self, writer: &mut dyn Write) -> std::io::Result<()> {
+        #[cfg(fselect_verif)]
+        crate::verif::emit("header", &[]);
         self.formatter
             .header()
             .map_or(Ok(()), |value| write!(writer, "{}", value))
     }
 
     pub fn write_row_separator(&mut self, writer: &mut dyn Write) -> std::io::Result<()> {
+        #[cfg(fselect_verif)]
+        crate::verif::emit("sep", &[]);
         self.formatter
             .row_separator()
             .map_or(Ok(()), |value| write!(writer, "{}", value))
@@ -50,6 +54,8 @@ impl ResultsWriter {
         writer: &mut dyn Write,
         values: Vec<(String, String)>,
     ) -> std::io::Result<()> {
+        #[cfg(fselect_verif)]
+        crate::verif::emit("row", &[]);
         self.write_row_start(writer)?;
         let len = values.len();
         for (pos, (name, value)) in values.iter().enumerate() {
@@ -59,6 +65,8 @@ impl ResultsWriter {
     }
 
     pub fn write_footer(&mut self, writer: &mut dyn Write) -> std::io::Result<()> {
+        #[cfg(fselect_verif)]
+        crate::verif::emit("footer", &[]);
         self.formatter
             .footer()
             .map_or(Ok(()), |value| write!(writer, "{}", value))
